@@ -297,6 +297,40 @@ Proof.
   - change (with_mode c false false) with cu.
     destruct n; [apply sync_of_synced_part; apply h|]. rewrite unsafe_eq_safe_S by exact h. reflexivity.
 Qed.
+(* ---- the same refinement with the laws required only AT THE STATES OF THE RUN (what a concrete instance can give:
+   e.g. the Kepler group law holds on the elliptic domain only).  [law_at j]: at the cached coordinates j of an
+   unsynchronized state, synchronizing, recomputing the coordinates from the synchronized particles and redoing the
+   first half drift amounts to one merged drift. *)
+Definition law_at (j : J) : Prop :=
+  from_inertial O (to_inertial_sync O (w_sync_coords N O dt cu j)) = w_sync_coords N O dt cu j /\
+  w_part1_drift N O dt cs true (w_sync_coords N O dt cu j) = drift O dt j.
+
+Lemma commute_step_at x : Inv x -> law_at (pjh x) ->
+  w_step cs (w_sync cu x) = w_sync cu (w_step cu x) /\ Inv (w_step cu x).
+Proof.
+  intros h (l1 & l2). pose proof h as (a & b & d). unfold Model.w_step.
+  change cu with (with_mode c false false) at 3 4. rewrite (part1_unsynced false x h).
+  rewrite (sync_unsynced x a d). change cs with (with_mode c true false) at 1.
+  rewrite part1_synced by reflexivity. simpl part. rewrite l1.
+  change (w_part1_drift N O dt c true) with (w_part1_drift N O dt cs true). rewrite l2.
+  rewrite mid_s_part2_safe. rewrite mid_part2_unsafe. split; [reflexivity|apply Inv_after_kernel].
+Qed.
+
+Lemma unsafe_iter_at n : forall x, Inv x -> (forall k, (k < n)%nat -> law_at (pjh (iter k (w_step cu) x))) ->
+  w_sync cu (iter n (w_step cu) x) = iter n (w_step cs) (w_sync cu x).
+Proof.
+  induction n; intros x h L; [reflexivity|]. cbn [iter].
+  destruct (commute_step_at x h (L 0%nat (Nat.lt_0_succ n))) as (e & h').
+  rewrite IHn; [rewrite e; reflexivity|exact h'|].
+  intros k hk. apply (L (S k)). lia.
+Qed.
+
+Lemma unsafe_eq_safe_at n s : coherent s ->
+  (forall k, (k < n)%nat -> law_at (pjh (iter (S k) (w_step cu) s))) ->
+  w_sync cu (iter (S n) (w_step cu) s) = iter (S n) (w_step cs) s.
+Proof.
+  intros h L. cbn [iter]. destruct (first_step s h) as (e & h'). rewrite unsafe_iter_at; [rewrite e; reflexivity|exact h'|exact L].
+Qed.
 End Laws.
 End WHFastP.
 
@@ -495,6 +529,41 @@ Proof.
   - rewrite s_keep_iter_same, s_keep_sync_part.
     destruct n; [apply s_sync_of_synced_part; apply h|]. rewrite s_unsafe_eq_safe_S by exact h. reflexivity.
   - destruct n; [apply s_sync_of_synced_part; apply h|]. rewrite s_unsafe_eq_safe_S by exact h. reflexivity.
+Qed.
+(* ---- laws only at the states of the run *)
+Definition s_law_at (j : J) : Prop :=
+  let y := if s_corr_on c then s_corrector O (s_cc c) j else sdrift O (c0dt N dt c) j in
+  s_from_inertial O (s_to_inertial_sync O y) = y /\
+  (if s_corr_on c then s_corrector O (s_cc c) y = s_corrector O (cc2 N c) j
+   else sdrift O (c0dt N dt c) y = sdrift O (c0dt2 N dt c) j).
+
+Lemma s_commute_step_at x : SInv x -> s_law_at (spjh x) ->
+  s_step cs (s_sync cu x) = s_sync cu (s_step cu x) /\ SInv (s_step cu x).
+Proof.
+  intros (a & b & d) L. dss x. simpl in *. subst. unfold s_law_at in L.
+  unfold Model.s_step, Model.s_part1, Model.s_sync. simpl. rewrite Hok. simpl.
+  unfold Model.s_part2. simpl.
+  change (c0dt N dt cs) with (c0dt N dt c). change (c0dt N dt cu) with (c0dt N dt c).
+  change (c0dt2 N dt cu) with (c0dt2 N dt c). change (cc2 N cu) with (cc2 N c).
+  destruct (s_corr_on c) eqn:E; simpl; destruct L as (l1 & l2); rewrite l1, l2;
+    match goal with |- context [s_loop N O dt ?a ?b ?d ?k ?jj ?p ?j] => destruct (s_loop N O dt a b d k jj p j) end;
+    unfold Model.s_sync; simpl; rewrite ?E; simpl; rewrite ?orb_false_r; (split; [reflexivity|repeat split]).
+Qed.
+
+Lemma s_unsafe_iter_at n : forall x, SInv x -> (forall k, (k < n)%nat -> s_law_at (spjh (iter k (s_step cu) x))) ->
+  s_sync cu (iter n (s_step cu) x) = iter n (s_step cs) (s_sync cu x).
+Proof.
+  induction n; intros x h L; [reflexivity|]. cbn [iter].
+  destruct (s_commute_step_at x h (L 0%nat (Nat.lt_0_succ n))) as (e & h').
+  rewrite IHn; [rewrite e; reflexivity|exact h'|].
+  intros k hk. apply (L (S k)). lia.
+Qed.
+
+Lemma s_unsafe_eq_safe_at n s : s_coherent s ->
+  (forall k, (k < n)%nat -> s_law_at (spjh (iter (S k) (s_step cu) s))) ->
+  s_sync cu (iter (S n) (s_step cu) s) = iter (S n) (s_step cs) s.
+Proof.
+  intros h L. cbn [iter]. destruct (s_first_step s h) as (e & h'). rewrite s_unsafe_iter_at; [rewrite e; reflexivity|exact h'|exact L].
 Qed.
 End SLaws.
 End SABAP.
